@@ -300,13 +300,15 @@ class FibonacciHeap(Generic[T, Key]):
         x.mark = False
 
     def _cascading_cut(self, y: HeapNode[T, Key]):
+        # iteratively, because a chain of marked ancestors can be longer than the interpreter's recursion limit
         z = y.parent
-        if z is not None:
+        while z is not None:
             if y.mark is False:
                 y.mark = True
-            else:
-                self._cut(y, z)
-                self._cascading_cut(z)
+                return
+            self._cut(y, z)
+            y = z
+            z = y.parent
 
     def _consolidate(self):
         a = [None] * self._n
